@@ -98,8 +98,21 @@ impl<T: Eq, S> HashSet<T, S> {
    pub fn union<'a>(&'a self, other: &'a Self) -> Union<'a, T, S> {
       Union { iter: self.iter().chain(other.difference(self)) }
    }
-   pub fn is_disjoint(&self, other: &Self) -> bool { self.iter().all(|v| !other.contains(v)) }
-   pub fn is_subset(&self, other: &Self) -> bool { self.len() <= other.len() && self.iter().all(|v| other.contains(v)) }
+   pub fn is_disjoint(&self, other: &Self) -> bool { self.count_in(other) == 0 }
+   pub fn is_subset(&self, other: &Self) -> bool { self.len() <= other.len() && self.count_in(other) == self.len() }
+   /// number of elements of `self` that are in `other`
+   fn count_in(&self, other: &Self) -> usize {
+      let (mut i, mut n) = (0, 0);
+      repeat_cap!({
+         if i < self.map.len {
+            if other.contains(self.map.entry_at(i).0) {
+               n += 1;
+            }
+            i += 1;
+         }
+      });
+      n
+   }
    pub fn is_superset(&self, other: &Self) -> bool { other.is_subset(self) }
 }
 
@@ -167,12 +180,16 @@ impl<'a, T: Eq, S> Iterator for Intersection<'a, T, S> {
    type Item = &'a T;
    #[inline]
    fn next(&mut self) -> Option<&'a T> {
-      loop {
-         let elt = self.iter.next()?;
-         if self.other.contains(elt) {
-            return Some(elt);
+      repeat_cap!({
+         match self.iter.next() {
+            None => return None,
+            Some(elt) =>
+               if self.other.contains(elt) {
+                  return Some(elt);
+               },
          }
-      }
+      });
+      None
    }
    #[inline]
    fn size_hint(&self) -> (usize, Option<usize>) { (0, self.iter.size_hint().1) }
@@ -190,12 +207,16 @@ impl<'a, T: Eq, S> Iterator for Difference<'a, T, S> {
    type Item = &'a T;
    #[inline]
    fn next(&mut self) -> Option<&'a T> {
-      loop {
-         let elt = self.iter.next()?;
-         if !self.other.contains(elt) {
-            return Some(elt);
+      repeat_cap!({
+         match self.iter.next() {
+            None => return None,
+            Some(elt) =>
+               if !self.other.contains(elt) {
+                  return Some(elt);
+               },
          }
-      }
+      });
+      None
    }
    #[inline]
    fn size_hint(&self) -> (usize, Option<usize>) { (0, self.iter.size_hint().1) }
@@ -240,7 +261,7 @@ impl<T: fmt::Debug, S> fmt::Debug for HashSet<T, S> {
 }
 
 impl<T: Eq, S> PartialEq for HashSet<T, S> {
-   fn eq(&self, other: &Self) -> bool { self.len() == other.len() && self.iter().all(|v| other.contains(v)) }
+   fn eq(&self, other: &Self) -> bool { self.len() == other.len() && self.count_in(other) == self.len() }
 }
 impl<T: Eq, S> Eq for HashSet<T, S> {}
 
